@@ -352,6 +352,18 @@ def limitsOkPair (pi : Rat) (t : Tank) (secs atol : Rat) (a b : Row) : Bool :=
   let slack := secs * absR a.demand + atol
   (vmin - slack ≤ v || va - atol ≤ v) && (v ≤ vmax + slack || v ≤ va + atol)
 
+/-- upper side only (used for tanks with a leak: a leak may drain a tank below `min`, it cannot push it above `max`) -/
+def limitsOkPairMax (pi : Rat) (t : Tank) (secs atol : Rat) (a b : Row) : Bool :=
+  let v := volumeAt pi t b.head
+  let va := volumeAt pi t a.head
+  let vmax := getVolume pi t t.maxLevel
+  v ≤ vmax + (secs * absR a.demand + atol) || v ≤ va + atol
+
+def tankLimitsMaxFirstBad (pi : Rat) (t : Tank) (secs atol : Rat) : List Row → Nat → Option Nat
+  | a :: b :: rest, i =>
+    if limitsOkPairMax pi t secs atol a b then tankLimitsMaxFirstBad pi t secs atol (b :: rest) (i + 1) else some (i + 1)
+  | _, _ => none
+
 /-- a tank at (or beyond) its minimum does not discharge, one at its maximum does not fill: `qtol` = Qtol·#links -/
 def limitFlowOk (t : Tank) (qtol : Rat) (r : Row) : Bool :=
   let lvl := level t r.head
